@@ -823,6 +823,16 @@ class Models:
             res = expand(0, cframe)
             if res is not None:
                 return PList(res)
+            # concrete outer iterables, symbolic innermost one: one lazily evaluated sequence per outer combination
+            if len(gens) == 2 and not gens[0].ifs and not gens[1].ifs:
+                parts = []
+                for x in first_items:
+                    f2 = Frame(fr.module, {}, fr, fr.finfo)
+                    ip.assign_target(gens[0].target, x, f2)
+                    inner = ast.ListComp(elt=e.elt, generators=[gens[1]])
+                    ast.copy_location(inner, e)
+                    parts.append(self.comprehension(ip, inner, f2, "list"))
+                return SpecFn(None, "concatenated sequences", meta={"concat": parts})
             raise Unsupported("nested comprehension with symbolic inner length")
         # symbolic length: the comprehension rule (pointwise, no unrolling)
         if len(gens) != 1:
@@ -1326,6 +1336,14 @@ class Models:
 
     def b_all(self, ip, a, kw, node):
         it = a[0]
+        if isinstance(it, SpecFn) and it.meta.get("concat") is not None:
+            acc = True
+            for part in it.meta["concat"]:
+                r = self.b_all(ip, [part], kw, node)
+                acc = self.band(acc, r)
+                if acc is False:
+                    return False
+            return acc
         if isinstance(it, SSeq) and not isinstance(it.n, int):
             return ip.schema.all_symbolic(ip, it, node)
         items = ip.concrete_iter(it)
